@@ -54,7 +54,31 @@ def _env(ctx, E):
         over["_KEY"] = base64.b64encode(bytes((7 * i + 1) % 256 for i in range(80))).decode()
     if which in ("derived:signature", "derived:all"):
         over["_SIGNATURE"] = base64.b64encode(bytes((3 * i + 5) % 256 for i in range(300))).decode()
-    return type("OtherReleaseEnv", (E.AndroidYowsupEnv,), over)()
+    cls = type("OtherReleaseEnv", (E.AndroidYowsupEnv,), over)
+    return cls()
+
+
+def h_token_of_current_env(ctx):
+    """the environment is selected by name (YowsupEnv.setEnv) and read back with getCurrent(), as the registration requests do; after
+    any sequence of selections the token is computed with the constants of the environment selected LAST"""
+    import base64
+    import yowsup.env.env_android as E
+    from yowsup.env import YowsupEnv
+    from ref import wa_registration_ref as R
+    over = {"_MD5_CLASSES": base64.b64encode(bytes(range(16, 32))).decode(), "_KEY": base64.b64encode(bytes((7 * i + 1) % 256 for i in range(80))).decode()}
+    Custom = type("CustomYowsupEnv", (E.AndroidYowsupEnv,), over)            # registers itself under the name "custom" (class name minus "YowsupEnv", lower case)
+    names = [ctx.choice("selected%d" % i, ["android", "custom"]) for i in range(3)]
+    try:
+        for nm in names:
+            YowsupEnv.setEnv(nm)
+        env = YowsupEnv.getCurrent()
+    finally:
+        YowsupEnv._YowsupEnv__CURR = None                  # other cases of this process start from "nothing selected"
+        YowsupEnv._YowsupEnv__ENVS.pop("custom", None)
+    want = Custom if names[-1] == "custom" else E.AndroidYowsupEnv
+    phone = "4915901234567"
+    return [("getCurrent() is the environment selected last (%s -> %s)" % (names, type(env).__name__), type(env) is want),
+            ("its token is the keyed hash with that environment's constants", env.getToken(phone) == R.token(want._KEY, want._SIGNATURE, want._MD5_CLASSES, phone))]
 
 
 def h_token(ctx, lmax):
@@ -374,7 +398,7 @@ def h_request_object(ctx):
 
 def cases(tier):
     q = tier == "quick"
-    cs = [dict(name="request-object[exists / code request, 3 sends]", fn=h_request_object, keep_samples=24, timeout_s=300), dict(name="token[L<=64]", fn=h_token, args=(64,)), dict(name="encode-int", fn=h_encode_int), dict(name="encrypt", fn=h_encrypt)]
+    cs = [dict(name="token-of-the-selected-environment[3 selections by name]", fn=h_token_of_current_env, keep_samples=8), dict(name="request-object[exists / code request, 3 sends]", fn=h_request_object, keep_samples=24, timeout_s=300), dict(name="token[L<=64]", fn=h_token, args=(64,)), dict(name="encode-int", fn=h_encode_int), dict(name="encrypt", fn=h_encrypt)]
     for n1, n2 in (((1, 2), (2, 1), (2, 2)) if q else ((1, 2), (2, 1), (2, 2), (3, 2), (2, 3), (3, 3), (4, 3))):
         cs.append(dict(name="token-twice[%d,%d digits]" % (n1, n2), fn=h_token_twice, args=(n1, n2)))
     cs.append(dict(name="encode-str[n=1,unicode]", fn=h_encode_str, args=(1,), weight=20, timeout_s=300, max_paths=400000))
